@@ -575,8 +575,19 @@ def prof_cfg(g, n):
         def cfg():
             return g.pick(atoms) if g.chance(0.45) else None
 
+        targets = {"register": [], "command": []}
+
         def leaf(depth):
             name = g.fresh(["Reg", "Cmd", "Buf", "Stat", "Ctl"])
+            if g.chance(0.2) and (targets["register"] or targets["command"]):
+                # a ref is gated by its OWN cfg and the blocks enclosing the REF - not by its target's
+                kind = g.pick([k for k in targets if targets[k]])
+                o = {"kind": "ref", "name": g.fresh(["Alias", "Copy", "Mirror"]), "target": g.pick(targets[kind]),
+                     "override": {"kind": kind, "address": "0", "allow_address_overlap": True}}
+                c = cfg()
+                if c:
+                    o["cfg"] = c
+                return o
             k = g.pick(["register", "register", "command", "buffer"])
             if k == "register":
                 o = {"kind": "register", "name": name, "address": "0", "size_bits": 8, "fields": []}
@@ -600,6 +611,8 @@ def prof_cfg(g, n):
             c = cfg()
             if c:
                 o["cfg"] = c
+            if k in targets:
+                targets[k].append(name)
             return o
 
         def block(depth, maxdepth):
@@ -670,6 +683,16 @@ def prof_collide(g, n):
         for o in objs:
             if o["kind"] == "ref" and o["override"]["kind"] != "block" and g.chance(0.3):
                 o["override"]["allow_address_overlap"] = True
+        # bit overlap is a different setting: it must not count as permission to share an address
+        def bitflag(os):
+            for o in os:
+                if o["kind"] in ("register", "command") and not o.get("basic") and g.chance(0.25):
+                    o["allow_bit_overlap"] = True
+                    if g.chance(0.4):
+                        o["allow_address_overlap"] = False
+                if o["kind"] == "block":
+                    bitflag(o["objects"])
+        bitflag(objs)
         cfg = {"register_address_type": "i32", "command_address_type": "i32", "buffer_address_type": "i32",
                "default_byte_order": "LE"}
         out.append(case({"config": cfg, "objects": objs}, pick_syntax(g, (7, 2, 1, 1)), "collide"))
@@ -1088,11 +1111,17 @@ def common_fragment_adef(g, rich=True):
                     o["reset"] = {"array": [0] * n}
             else:
                 o["reset"] = {"array": [0] * n}
+        if o["kind"] in ("register", "command") and not o.get("basic"):
+            # the two overlap flags are independent settings: each front end must read each from its own key
+            if g.chance(0.25):
+                o["allow_bit_overlap"] = g.chance(0.7)
+            if g.chance(0.25):
+                o["allow_address_overlap"] = g.chance(0.7)
         if o["kind"] == "block":
             for x in o["objects"]:
                 fix(x)
-        if o["kind"] == "ref" and o["override"]["kind"] == "register" and g.chance(0.3):
-            pass
+        if o["kind"] == "ref" and o["override"]["kind"] in ("register", "command") and g.chance(0.2):
+            o["override"]["allow_address_overlap"] = g.chance(0.7)
     for o in objs:
         fix(o)
     cfg = g.config(p=0.5, addr_types=("u16", "i16", "u32", "i32", "i64"), byte_order_p=0.85)
@@ -1107,6 +1136,8 @@ def prof_four_syntaxes(g, n):
     out = []
     for i in range(n):
         adef = common_fragment_adef(g)
+        # how non-negative integers are spelled where the syntax has a choice (hex / binary literals; JSON has none)
+        adef["num_style"] = g.pick(["dec", "dec", "hex", "bin", "mixed", "mixed"])
         for syn in SYNTAXES:
             out.append(case(copy.deepcopy(adef), syn, "four", group=i, want_mir=True, want_tokens=True))
     return out
